@@ -396,6 +396,8 @@ pub fn corpus() -> Vec<GTree> {
         doc(e(2, &[(3, NS_A)], &[], vec![e(3, &[(2, NS_A), (3, NS_B)], &[], vec![e(6, &[], &[], vec![])])])),
         // <r xmlns:q="C" xmlns:p="A"><m xmlns:q="A"><n xmlns:r="C"/></m></r>   (second dedup removes more)
         doc(e(2, &[(3, NS_C), (2, NS_A)], &[], vec![e(3, &[(3, NS_A)], &[], vec![e(4, &[(4, NS_C)], &[], vec![])])])),
+        // <r xmlns:p="A"><A:a xmlns="A"><A:b xmlns:q="A" q:x="v"/></A:a></r>   (second dedup removes more, no shadowing)
+        doc(e(2, &[(2, NS_A)], &[], vec![e(6, &[(0, NS_A)], &[], vec![e(7, &[(3, NS_A)], &[8], vec![])])])),
         // default namespace declared, undeclared, redeclared
         doc(e(6, &[(0, NS_A)], &[], vec![e(2, &[(0, 0)], &[], vec![e(6, &[(0, NS_A)], &[], vec![e(3, &[], &[], vec![])])])])),
         // no-namespace element under a default namespace
